@@ -405,7 +405,7 @@ func init() {
 	register(ruleBCE, ruleUnmarshalErr, rulePanicUnmarshal)
 	addProp(&PropSpec{
 		ID:    "C18",
-		Rules: []string{"R-BCE", "R-PANIC-UNMARSHAL", "R-UNMARSHAL-ERR", "R-LAYOUT", "R-CTXZONE", "R-GLOBALS", "R-WALLCLOCK", "R-OKFLAG"},
+		Rules: []string{"R-BCE", "R-PANIC-UNMARSHAL", "R-UNMARSHAL-ERR", "R-LAYOUT", "R-CTXZONE", "R-GLOBALS", "R-WALLCLOCK", "R-OKFLAG", "R-VALUETYPES"},
 		Explanation: "Totality of UnmarshalJSON on hostile input, decided with the Go compiler's own prove pass as the decision procedure for index safety: " +
 			"every bounds check the compiler cannot discharge in a function reachable from the five UnmarshalJSON methods is a violation; explicit panics are enumerated over the call graph; returned errors wrap ErrSQLType. " +
 			"Only the 'hostile input returns an error instead of panicking' clause of C18 is decided.",
